@@ -195,7 +195,8 @@ func (s *c15Session) awaitMonitor(what string) ([]monEvent, *ev.Failure) {
 }
 
 func (s *c15Session) request() *ev.Failure {
-	ctx := frugal.NewFContext("").SetTimeout(2 * time.Second)
+	// generous: the oracle is about the outcome, not latency (16 shards x 16 threads on a busy machine)
+	ctx := frugal.NewFContext("").SetTimeout(4 * time.Second)
 	id := opidOf(ctx)
 	s.st.onFlush = func([]byte) {
 		s.st.feed(refFrame(frameContent([]KV{kv("_opid", id)}, []byte("pong-"+id))))
